@@ -19,7 +19,7 @@ CLAIMED = {
          "(hasType, evaluated by the driver on every generated case), with exact consumption "
          "(the rest is returned untouched) and UUID/Offset resolution lemmas; the model's "
          "encode/decode are compared with serialization.py byte for byte and value for value "
-         "on boundary tables, all small type trees and random deep types.",
+         "on boundary tables, all small type trees and random deep types. Session 2: type NAMES (tyOfName_nameOf, C07_roundtrip_name), node resolution at any depth (C07_resolution), decode-side typing (decode_hasType); lazy arity errors (Ty.badArity); values through AuxData tables across save/load cycles; resolution across edits.",
          "5 C07"),
  "C08": ("Lean 4 characterisation lemmas of the documented wire format + table theorem over "
          "the regenerated codec table + byte-for-byte differential run",
@@ -27,7 +27,7 @@ CLAIMED = {
          "per clause of the property; the codec table regenerated from the source must equal "
          "the expected one (rfl) and agree with the model's heads (decide); every generated "
          "case is compared byte for byte, and bytes in a foreign element order are decoded by "
-         "the implementation.",
+         "the implementation. Session 2: an INDEPENDENT statement of the wire format (inductive Wire, little-endian and two's complement defined positionally) with encode_iff_Wire, C08_injective, C08_prefix_free, content of UUID/Offset encodings; Java cross-decoding in both directions; re-tag probe.",
          "5 C08"),
  "C03": ("Lean 4 invariant proof (UUID table = scan, by induction over operations) + per-step "
          "correspondence of model, code and abstract specification on graph histories",
@@ -35,43 +35,43 @@ CLAIMED = {
          "(which mirrors the incremental _add_to/_remove_from_uuid_cache mechanism), so "
          "get_by_uuid equals a fresh scan in every reachable state under the property's "
          "distinctness hypothesis; the model is compared with the real objects' complete "
-         "observable snapshot after every step of random histories over 2-3 IRs.",
+         "observable snapshot after every step of random histories over 2-3 IRs. Session 2: lookup = scan over the owning collections (C03_lookup_scan); under the distinctness hypothesis no step ever fails mid-way (C03_history_no_keyerror, runStrict); the load clause (C03_load, C03_loadX: a load keeps ForestInv, CacheInv of all IRs, Distinct, IndexInv; histories continued from a loaded state).",
          "5 C03"),
  "C04": ("Lean 4 invariant proof (two-ended forest consistency, derived accessors) + per-step "
          "snapshot correspondence on graph histories",
          "ForestInv (membership iff back-pointer, no duplicates, rank-correct kinds) is proved "
          "preserved by every public operation; derived accessors and aggregate iterators are "
-         "proved equal to what the forest implies; tied to the code by the shared graph stream.",
+         "proved equal to what the forest implies; tied to the code by the shared graph stream. Session 2: frame theorem (C04_frame: nodes an operation does not name keep parent, name, payload; other collections keep their contents), strict histories (C04_history_strict), aliasing stream also for property setters.",
          "5 C04"),
  "C05": ("Lean 4 proof (lazy index = current set; lookup = scan) + differential run of every "
          "edit and lookup against the model and a fresh scan",
          "Over the model of LazyIntervalTree and the util lookup functions: the index is exact "
          "after any history (all three branches of get), block lookups at interval scope equal "
          "the scan with each block once, section scope is characterised exactly (sandwich as "
-         "corollary); tied by edit histories with lookup batches on all scopes and all 18 methods.",
+         "corollary); tied by edit histories with lookup batches on all scopes and all 18 methods. Session 2: code_/data_ variants (C05_kind_*), must side for 'at' and for blocks partly inside the declared extent (C05Must); the tie compares scope-level answers up to the sandwich the property states; save+load as an edit.",
          "5 C05"),
  "C06": ("Lean 4 proof (interval lookups and section extents = scan) + differential run",
          "Same model as C05: byte_intervals_on/at and Section.address/size are proved equal to "
-         "the scan; tied by the same stream with address edits to and from None.",
+         "the scan; tied by the same stream with address edits to and from None. Session 2: Module/IR sections_on/at and the extent as a scan (C06_sections_*, C06_extent_scan).",
          "5 C06"),
  "C10": ("Lean 4 invariant proof (symbol indexes = scan) + per-step snapshot correspondence",
          "IndexInv (name and referent index hold exactly the module's symbols under their "
          "current keys) is proved preserved by every operation incl. the _IndexedAttribute "
          "setters; symbols_named/references are corollaries; tied by the graph stream with "
-         "renames, payload switches and moves.",
+         "renames, payload switches and moves. Session 2: strict histories (C10_history_strict), loaded start states (C04_C10_history_after_load).",
          "5 C10"),
  "C11": ("Lean 4 refinement proof (CFG store refines a mathematical set) + per-step correspondence",
          "Every CFG operation incl. the MutableSet mixins is proved to act on membership as the "
          "set operation, with KeyError exactly for remove/pop of an absent edge, Nodup invariant "
          "over histories, adjacency views as filters; tied by histories over attached/detached "
-         "nodes and 5 labels with all candidate memberships probed each step.",
+         "nodes and 5 labels with all candidate memberships probed each step. Session 2: the keyed multigraph mechanism is modelled (CfgKeyed: _edge_key search, networkx new_edge_key) and proved to refine the set model per operation and over histories (C11_refine_*, C11_newKey_fresh); cfg.nx() keys compared with the keyed model; block views (C11Views); one-shot operands.",
          "5 C11"),
  "C12": ("Lean 4 proof (get returns the current set on all branches; schedule independence) + "
          "metamorphic replay of each history under several lookup schedules",
          "Answers are proved to be functions of the structure only (lookups preserve the "
          "structure and the invariant), hence independent of lookup schedule; on the real code "
          "each history is replayed under 5-7 schedules hitting pending <,=,> size and the final "
-         "battery compared across schedules, with the scan and with the model.",
+         "battery compared across schedules, with the scan and with the model. Session 2: schedules of ARBITRARY structure-preserving lookups (C12_scheduleG), scope lookups and section scans as final queries, histories from the empty state incl. creation (C12_reachable), the sentence verbatim (C12_schedule_none); bulk index events and bursts in the stream.",
          "5 C12"),
  "C14": ("Lean 4 proof over the table life-cycle model (+ decided counterexample for the false "
          "corner) + differential run through public load/save over generations",
@@ -79,21 +79,21 @@ CLAIMED = {
          "of generations; read/assigned/retyped tables are proved saved as the encoding of the "
          "current value under the current name; the unknown-codec clause is proved where "
          "decoding reaches the unknown head, with a decided counterexample (known finding K4) "
-         "otherwise; tied by random action sequences on real files.",
+         "otherwise; tied by random action sequences on real files. Session 2: histories (C14History), touched tables across generations (C14_touched_generation, C14_read_generations), the exact extent of K4 (C14_rewritten_iff), C14_unknown_top_head, C14_lazy_trichotomy; lazy arity; second save of the same object after an in-place edit; the other table of the container.",
          "5 C14"),
  "C16": ("Lean 4 refinement proofs for the owning collections (content after each wrapper "
          "operation) + per-step correspondence against built-in list/set and the abstract spec",
          "The graph model composes the collections.abc mixins as CPython does; the abstract "
          "specification run side by side is built-in list/set semantics on the content after "
          "removing inserted nodes from previous owners; non-mutating operators and comparisons "
-         "are checked against plain sets/lists; return values and exception types compared.",
+         "are checked against plain sets/lists; return values and exception types compared. Session 2: slices (C16Slices), return values and non-mutating operations as model functions with theorems (ForestOps, C16Ops: C16_listPop_returns, C16_nm*_mem, ...) and a tie of their own; extend with repeated arguments; setters never raise; only built-in guard exceptions are skipped by histories (C16_history_skips_only_builtin).",
          "5 C16"),
  "C19": ("Lean 4 invariant proof (stored bytes <= size over all assignment histories; block "
          "views) + differential run with save/load",
          "StoreInv is proved preserved by size / initialized_size assignments and content edits "
          "from any constructed interval, and equivalent to the loader accepting the saved "
          "interval; block address/contents/contains_* are characterised; tied by histories on "
-         "real intervals with probes around both ends of each block.",
+         "real intervals with probes around both ends of each block. Session 2: whole-contents assignment (bytes / bytearray) as an edit, a twin interval built from the same bytearray.",
          "5 C19"),
  "C01": ("Lean 4 proof (fromMsg (toMsg v) = v for every self-contained IR, lifted through the "
          "header) + save/parse/load/save differential run under both protobuf back ends",
@@ -101,7 +101,7 @@ CLAIMED = {
          "precondition wfir (evaluated by the driver on every generated IR); re-saving gives the "
          "same message; on the real code every generated IR's object dump equals the loaded "
          "IR's, deep_eq holds both ways, the re-saved message is equal and AuxData values decode "
-         "equal; the forward-entry-point corner is the known finding K5.",
+         "equal; the forward-entry-point corner is the known finding K5. Session 2: second saves of the same IR after in-place edits; the value-level reader is proved to agree with the graph-level loader on every accepted message (C01_link_accepts/_shape); wfir is proved to be exactly the round-trip domain (C01_wfir_iff; IR.version must be the current one: C01_version_rejected); decoded AuxData values survive (C01_aux_values).",
          "5 C01"),
  "C02": ("Lean 4 table theorems re-proved against the regenerated schema / enums / version on "
          "every run + writer and reader field lemmas + two-direction differential run",
@@ -110,7 +110,7 @@ CLAIMED = {
          "field-by-field writer statement with one lemma per clause; reader lemmas say every "
          "attribute of an accepted message equals the field; messages parsed by the generated "
          "classes (writer) and built from the descriptors with every declared enum constant "
-         "(reader) are compared with the model under upb and pure Python.",
+         "(reader) are compared with the model under upb and pure Python. Session 2: C02_reader_exact (toMsg v = normMsg m: nothing lost, nothing invented), C02_accepts_iff_closed, writer probe for IR.version.",
          "5 C02"),
  "C09": ("Lean 4 lemmas (accepted messages have typed, resolved references; UUID/Offset "
          "resolution of the codec) + identity checks and exhaustive reference-fault stream",
@@ -118,13 +118,13 @@ CLAIMED = {
          "required kind; C07_*_resolution prove AuxData UUIDs naming attached nodes decode to "
          "those nodes; on the real code every loaded IR's references are compared by identity "
          "with containment and get_by_uuid, and every reference re-pointed to a missing UUID or "
-         "to each wrong kind must raise DeserializationError.",
+         "to each wrong kind must raise DeserializationError. Session 2: the error class of every reference fault (C09_reference_fault_deser, C09_deser_iff, per kind); identity at the loader level for all four reference kinds (loadR: C09_loadR_identity, C09_load_referent_identity); lazy-table probe.",
          "5 C09"),
  "C13": ("Lean 4 proof (sorted key-unique store; lookup = scan in offset order) + differential "
          "run against a built-in dict and a scan",
          "The store invariant is proved over all MutableMapping operations, irange bounds are "
          "proved to exclude no member, at/at_offset equal the scan in increasing offset order; "
-         "tied by histories of all mapping operations with lookups on every scope.",
+         "tied by histories of all mapping operations with lookups on every scope. Session 2: section / module / IR scope (SymScopes model; C13_section_at, C13_scope_at_union, _sandwich, _nodup, unobservability), tied by the symscopes driver; ranges longer than a machine word; malformed update items; assignment of another interval's mapping.",
          "5 C13"),
  "C17": ("Lean 4 proof (header/version rejection, totality, accepted messages are well formed) "
          "+ fault enumeration with coherence oracle on the real objects",
@@ -133,14 +133,14 @@ CLAIMED = {
          "size and can be saved and loaded again (Nodup up to the block/own-interval corner); "
          "every file saved from a self-contained IR is accepted; tied by truncations, bit and "
          "byte flips, header variants and all single structural faults, each accepted IR "
-         "checked for coherence on the real objects and saved again, with a per-case timeout.",
+         "checked for coherence on the real objects and saved again, with a per-case timeout. Session 2: the staged loader as a program over the object-graph model for EVERY message, duplicated UUIDs included (Loader, LoaderX: C17_load_coherent, C17_loadX_coherent), children decoded and attached one by one, expression symbols checked per decoded interval object; tied on single faults, duplication pairs and mixed multi-fault messages; C17_accepted_bytes_inv lifts the accepted-IR theorems to any byte string.",
          "5 C17"),
  "C18": ("Lean 4 proof (deepEq <-> canonical forms equal; reflexive, symmetric, order-"
          "insensitive, one lemma per compared field) + perturbation enumeration",
          "C18_iff, C18_symm (unconditional), C18_refl, permutation lemmas and 35 field lemmas "
          "are proved over the model mirroring every class's deep_eq; tied by equal copies and "
          "every applicable single-field perturbation with deep_eq both ways vs canonical-dump "
-         "equality vs the model.",
+         "equality vs the model. Session 2: deep_eq between nodes of one kind (C18_node_*: = equality of what the nodes show, references resolved), C18_refl_iff; node-level comparison of every same-UUID pair, chains of comparisons of the same pair after in-place edits, stratified perturbations.",
          "5 C18"),
 }
 
